@@ -56,14 +56,18 @@ PROPS = {
     "C09": dict(functions=[M + "sort_assignments", O + "sorted_assignments", O + "missing_variables", S + "get_scheme"] + ACCESSORS,
                 lemmas=[]),
     "C10": dict(functions=["gotranx.transformer.TreeToODE.ode", O + "__eq__", O + "sorted_assignments", M + "sort_assignments"] + ACCESSORS, lemmas=[]),
-    "C11": dict(functions=ODE_PRINT, lemmas=[]),
+    "C11": dict(functions=ODE_PRINT, lemmas=[], level="other",
+                explanation="no obligation of this property is over all inputs: the .ode printer overrides are executed on bounded instances "
+                            "(skeleton contracts), the class frame is syntactic, the rest is the bounded save/reload oracle"),
     "C12": dict(functions=[O + "sorted_assignments", O + "dependents", B + "__init__", B + "_state_assignments",
                            B + "_parameter_assignments", B + "rhs", B + "scheme", B + "missing_values"] + SCHEMES,
                 lemmas=L.STAB + L.C12L + L.C13L),
     "C13": dict(functions=[O + "missing_variables", O + "dependents", B + "missing_index", B + "_missing_variables_assignments",
                            B + "missing_values", B + "rhs", B + "monitor_values", B + "scheme", TP + "missing_index", TC + "missing_index"],
                 lemmas=L.C13L),
-    "C14": dict(functions=PY_PRINT + [B + "_shape_info", TP + "method"], lemmas=[]),
+    "C14": dict(functions=PY_PRINT + [B + "_shape_info", TP + "method"], lemmas=[], level="other",
+                explanation="only the text of the shape prologue (_shape_info) is proved for all inputs; elementwise printing is decided on "
+                            "bounded instances of the printer overrides and by the bounded batch oracle"),
     "C16": dict(functions=["gotranx.atoms.remove_singularities", "gotranx.atoms.Singularity.is_infinite", T + "Conditional"], lemmas=L.STAB + L.C16L),
     "C17": dict(functions=["gotranx.transformer.get_unit_and_comment_from_assignment", "gotranx.transformer.TreeToODE.ode"], lemmas=[]),
     "C18": dict(functions=[G + "ode2py", G + "ode2c", G + "convert", G + "gotran2py.main", G + "gotran2c.main",
